@@ -10,7 +10,10 @@
    handshake, is addressed to the local context and claims source context pn; [rewrite_src c m] =
    m with its source context replaced by the local alias; [bad_head c bad k] = bad starts with a
    byte other than 'P' (k = BadMarker) or with 'P' and an 8-byte length above the limit
-   (k = TooBig); [fail ps k] = what the except-clause of _handle_read does. *)
+   (k = TooBig); [fail c ps k] = what the except-clause of _handle_read does; [registered c e] = the
+   requester of pending entry e still has a handler at the router ([rejects c] lists the handlers
+   for which deliver_message raises QMI_MessageDeliveryException); [fail_reply c e] = the error reply
+   for e: an EFail event when delivered, an ERefused event when the router refused it. *)
 Require Import QV.C06.Model QV.C06.Proofs.
 
 (* ---- however the byte stream is cut into segments ---------------------------------------- *)
@@ -84,7 +87,7 @@ Theorem C06_bad_frame : forall deser c,
     process_all deser c ps0 (map ser ms) = (ps1, e1) /\
     delivered e1 = map (rewrite_src c) ms /\ errors e1 = [] /\ failed_ids e1 = [] /\
     run_feed deser c (ps0, []) cs =
-      ((mkp (Some pn) true [], []), e1 ++ EError k :: map fail_reply (pending ps1)).
+      ((mkp (Some pn) true [], []), e1 ++ EError k :: map (fail_reply c) (pending ps1)).
 Proof. exact stream_bad_frame. Qed.
 Print Assumptions C06_bad_frame.
 
@@ -99,37 +102,40 @@ Theorem C06_bad_message : forall deser c,
   Forall (valid_from c pn) ms ->
   forall p k rest cs,
   fits c p ->
-  (forall ps, closed ps = false -> peer ps = Some pn -> process deser c ps p = fail ps k) ->
+  (forall ps, closed ps = false -> peer ps = Some pn -> process deser c ps p = fail c ps k) ->
   concat cs = concat (map frame (map ser ms)) ++ frame p ++ rest ->
   exists ps1 e1,
     process_all deser c ps0 (map ser ms) = (ps1, e1) /\
     delivered e1 = map (rewrite_src c) ms /\ errors e1 = [] /\ failed_ids e1 = [] /\
     run_feed deser c (ps0, []) cs =
-      ((mkp (Some pn) true [], []), e1 ++ EError k :: map fail_reply (pending ps1)).
+      ((mkp (Some pn) true [], []), e1 ++ EError k :: map (fail_reply c) (pending ps1)).
 Proof. exact stream_bad_message. Qed.
 Print Assumptions C06_bad_message.
 
 (* payload that is not a message; missing, wrong-direction, repeated handshake; forged
    destination or source context: each goes through [fail] *)
 Theorem C06_violations_rejected : forall deser c ps p,
-  (deser p = None -> process deser c ps p = fail ps BadPayload) /\
+  (deser p = None -> process deser c ps p = fail c ps BadPayload) /\
   (forall m, deser p = Some m -> peer ps = None -> not_handshake m ->
-             process deser c ps p = fail ps NoHandshake) /\
+             process deser c ps p = fail c ps NoHandshake) /\
   (forall m, deser p = Some m -> peer ps = None -> mkind m = KHandshake (incoming c) ->
-             process deser c ps p = fail ps WrongDirection) /\
+             process deser c ps p = fail c ps WrongDirection) /\
   (forall m pn srv, deser p = Some m -> peer ps = Some pn -> mkind m = KHandshake srv ->
-             process deser c ps p = fail ps RepeatedHandshake) /\
+             process deser c ps p = fail c ps RepeatedHandshake) /\
   (forall m pn, deser p = Some m -> peer ps = Some pn -> not_handshake m ->
-             fst (mdst m) <> local_ctx c -> process deser c ps p = fail ps BadDestination) /\
+             fst (mdst m) <> local_ctx c -> process deser c ps p = fail c ps BadDestination) /\
   (forall m pn, deser p = Some m -> peer ps = Some pn -> not_handshake m ->
-             fst (mdst m) = local_ctx c -> fst (msrc m) <> pn -> process deser c ps p = fail ps BadSource).
+             fst (mdst m) = local_ctx c -> fst (msrc m) <> pn -> process deser c ps p = fail c ps BadSource).
 Proof. exact process_rejects. Qed.
 Print Assumptions C06_violations_rejected.
 
-(* ... and [fail] closes, delivers nothing, and fails exactly the pending requests *)
-Theorem C06_fail_contains : forall ps k,
-  fail ps k = (mkp (peer ps) true [], EError k :: map fail_reply (pending ps)) /\
-  delivered (snd (fail ps k)) = [] /\ failed_ids (snd (fail ps k)) = ids (pending ps).
+(* ... and [fail] closes, delivers nothing from the peer, attempts an error reply for every pending
+   request, and exactly those whose requester is registered receive it *)
+Theorem C06_fail_contains : forall c ps k,
+  fail c ps k = (mkp (peer ps) true [], EError k :: map (fail_reply c) (pending ps)) /\
+  delivered (snd (fail c ps k)) = [] /\
+  attempted_ids (snd (fail c ps k)) = ids (pending ps) /\
+  failed_ids (snd (fail c ps k)) = ids (filter (registered c) (pending ps)).
 Proof. exact fail_shape. Qed.
 Print Assumptions C06_fail_contains.
 
@@ -138,7 +144,7 @@ Print Assumptions C06_fail_contains.
 Theorem C06_first_frame_rejected : forall deser c,
   (maxsz c < 2 ^ 64)%N ->
   forall p k rest cs,
-  fits c p -> process deser c (mkp None false []) p = fail (mkp None false []) k ->
+  fits c p -> process deser c (mkp None false []) p = fail c (mkp None false []) k ->
   concat cs = frame p ++ rest ->
   run_feed deser c init cs = ((mkp None true [], []), [EError k]).
 Proof. exact first_frame_rejected. Qed.
@@ -154,28 +160,45 @@ Theorem C06_pending_invariant : forall deser c ops,
 Proof. exact reachable_inv. Qed.
 Print Assumptions C06_pending_invariant.
 
-(* closing (EOF from the peer, disconnect) fails each pending request exactly once and nothing else *)
-Theorem C06_pending_fail : forall ps,
+(* closing (EOF from the peer, disconnect; an error closes the same way, see C06_fail_contains):
+   an error reply is attempted for EVERY pending request, in table order; exactly the pending ids
+   whose requester handler is registered receive one error reply, in pending order, regardless of
+   which other deliveries the router refuses; the refused ones are exactly the others; nothing else
+   happens and the table is cleared *)
+Theorem C06_pending_fail : forall c ps,
   closed ps = false -> NoDup (ids (pending ps)) ->
-  let '(s', evs) := close_conn (ps, ([] : bytes)) in
+  let '(s', evs) := close_conn c (ps, ([] : bytes)) in
   closed (fst s') = true /\ pending (fst s') = [] /\
-  evs = map fail_reply (pending ps) /\
-  failed_ids evs = ids (pending ps) /\ NoDup (failed_ids evs) /\ delivered evs = [].
+  evs = map (fail_reply c) (pending ps) /\
+  attempted_ids evs = ids (pending ps) /\
+  failed_ids evs = ids (filter (registered c) (pending ps)) /\
+  refused_ids evs = ids (filter (fun e => negb (registered c e)) (pending ps)) /\
+  NoDup (failed_ids evs) /\ delivered evs = [].
 Proof. exact close_fails_each_once. Qed.
 Print Assumptions C06_pending_fail.
 
+(* per request: whatever the refused set, a pending request with a registered requester gets its
+   error reply exactly once *)
+Theorem C06_pending_fail_each_registered_once : forall c ps e,
+  NoDup (ids (pending ps)) -> In e (pending ps) -> registered c e = true ->
+  count_occ N.eq_dec (failed_ids (map (fail_reply c) (pending ps))) (fst e) = 1%nat.
+Proof. exact close_fails_registered. Qed.
+Print Assumptions C06_pending_fail_each_registered_once.
+
 Theorem C06_eof_and_disconnect_close : forall deser c ps b,
   closed ps = false ->
-  step deser c (ps, b) OEof = ((mkp (peer ps) true [], []), map fail_reply (pending ps)) /\
-  step deser c (ps, b) ODisconnect = ((mkp (peer ps) true [], []), map fail_reply (pending ps)).
+  step deser c (ps, b) OEof = ((mkp (peer ps) true [], []), map (fail_reply c) (pending ps)) /\
+  step deser c (ps, b) ODisconnect = ((mkp (peer ps) true [], []), map (fail_reply c) (pending ps)).
 Proof. exact close_steps. Qed.
 Print Assumptions C06_eof_and_disconnect_close.
 
 (* whole-history form: once the connection is closed, every request that was written to the socket
-   has been answered — by a reply delivered from the peer or by a local error reply *)
+   has been answered — by a reply delivered from the peer, or by a local error reply that was
+   delivered, or by one the router refused because the requester's handler is gone *)
 Theorem C06_no_request_left_pending : forall deser c ops ps b evs,
   run deser c init ops = ((ps, b), evs) -> closed ps = true ->
-  forall id, In id (sent_request_ids evs) -> In id (replied_ids evs) \/ In id (failed_ids evs).
+  forall id, In id (sent_request_ids evs) ->
+    In id (replied_ids evs) \/ In id (failed_ids evs) \/ In id (refused_ids evs).
 Proof. exact no_request_left. Qed.
 Print Assumptions C06_no_request_left_pending.
 
@@ -234,7 +257,7 @@ Proof. vm_compute. reflexivity. Qed.
 (* the hypothesis of C06_bad_message holds for the forged payload *)
 Example C06_example_bad_message_hyp :
   forall ps, closed ps = false -> peer ps = Some 7%N ->
-  process toy_deser toy_cfg ps [6]%N = fail ps BadSource.
+  process toy_deser toy_cfg ps [6]%N = fail toy_cfg ps BadSource.
 Proof. intros ps _ H. unfold process. simpl. rewrite H. reflexivity. Qed.
 
 Example C06_example_bad_head :
@@ -246,3 +269,20 @@ Proof.
   - right. split; [reflexivity|]. exists [233; 3; 0; 0; 0; 0; 0; 0]%N, [5]%N.
     split; [reflexivity | split; [reflexivity | vm_compute; reflexivity]].
 Qed.
+
+(* three pending requests 11, 12, 13 from requesters 8, 5, 8'; the handler 5 of the middle one is
+   gone: the peer closes, 11 and 13 still get their error reply, 12 is refused, in table order *)
+Example C06_example_close_with_refusal :
+  snd (run toy_deser (mkcfg 1 9 true 1000 [5]) init
+        [ORecv (frame [1]%N);
+         OSend (mkmsg (KRequest 11) (1, 8)%N (9, 4)%N 0%N) 10%N;
+         OSend (mkmsg (KRequest 12) (1, 5)%N (9, 4)%N 0%N) 10%N;
+         OSend (mkmsg (KRequest 13) (1, 2)%N (9, 4)%N 0%N) 10%N;
+         OEof]) =
+  [ESent (mkmsg (KRequest 11) (1, 8)%N (7, 4)%N 0%N);
+   ESent (mkmsg (KRequest 12) (1, 5)%N (7, 4)%N 0%N);
+   ESent (mkmsg (KRequest 13) (1, 2)%N (7, 4)%N 0%N);
+   EFail (mkmsg (KReply 11 true) (7, 4)%N (1, 8)%N 0%N);
+   ERefused (mkmsg (KReply 12 true) (7, 4)%N (1, 5)%N 0%N);
+   EFail (mkmsg (KReply 13 true) (7, 4)%N (1, 2)%N 0%N)].
+Proof. vm_compute. reflexivity. Qed.
